@@ -331,7 +331,8 @@ def special_cases(rng, thorough):
               dict(c, t0=t[0] - 0.5 * dt),                               # shower just before the window
               dict(c, t0=t[0] + (3 * len(t)) * dt),                      # far outside: zero exit
               dict(c, times=t[:2], t0=t[0]),                             # shortest grid
-              dict(c, em=2.0 ** -12, had=2.0 ** -9)]                     # tiny shower energies (hadronic below ~3 GeV at E = 1e3)
+              dict(c, em=2.0 ** -12, had=2.0 ** -9),                     # tiny shower energies (hadronic below ~3 GeV at E = 1e3)
+              dict(c, E=2000.0, em=0.75, had=0.25, psi=-theta_c(c["n"]))]  # hadronic shower below 1 TeV, on the cone, negative angle
         if thorough or model != "ARZ":
             sp += [dict(c, em=0.0, had=0.0),                             # no shower fractions
                    dict(c, em=0.0, had=1.0, psi=-theta_c(c["n"])),       # had only, on the cone, negative angle
@@ -578,6 +579,11 @@ def probes(ctx, mult=1):
                     c["psi"] = float(psi)
             if rng.random() < 0.1:
                 c["psi"] = float(rng.choice([0.0, math.pi, -math.pi, math.pi / 2]))
+            if it % 6 == 5:
+                # hadronic showers below 1 TeV (AVZ: no hadronic cone width) and sub-GeV showers, exactly on the cone
+                c["E"] = float(10 ** rng.uniform(3, 4.5))
+                c["em"], c["had"] = rng.choice([(1.0 - 2.0 ** -6, 2.0 ** -6), (0.0, rng.uniform(0.001, 0.3)), (0.5, 2.0 ** -12)])
+                c["psi"] = rng.choice([-1, 1]) * theta_c(c["n"])
             Eem, Ehad = c["E"] * c["em"], c["E"] * c["had"]
             if model == "ARZ" and any(0 < e and abs(math.log(e / 7.86e-2)) < 0.2 for e in (Eem, Ehad)):
                 continue        # max_length -> 0 at the critical energy: array sizes explode (documented limitation)
@@ -632,7 +638,7 @@ def cone_avz(ctx, c, side, fail, count):
     f = np.fft.rfftfreq(N, dt)[1:(N - 1) // 2 + 1]
     Eem, Ehad = c["E"] * c["em"], c["E"] * c["had"]
     # widths as DEFINED by the parameterisation (needed to state the bound; validated against the code by the correspondence)
-    sig = np.radians(2.7) * 500e6 / f * (2e15 / (0.14 * Eem * 1e9 + 2e15)) ** 0.3
+    sig = 2.0 * np.radians(2.7) * 500e6 / f * (2e15 / (0.14 * Eem * 1e9 + 2e15)) ** 0.3     # factor 2: margin, the bound only grows
     if Ehad > 0:
         sig = np.maximum(sig, np.radians(500e6 / f * 4.23 * 2.0))       # generous upper bound of dThetaHad over all energies <= 1e13
     bound = sig ** 2 / math.tan(tc) / (2 * math.log(2))
